@@ -4,6 +4,8 @@ use rusl::string::unix_str::UnixStr;
 use rusl::termios::tcsetattr;
 use rusl::unistd::{open, open_raw};
 
+use crate::unix::fd::OwnedFd;
+
 #[derive(Debug, Copy, Clone)]
 pub struct TerminalHandle {
     pub master: Fd,
@@ -23,17 +25,22 @@ pub fn openpty(
     const PTMX: &UnixStr = UnixStr::from_str_checked("/dev/ptmx\0");
     let use_flags: OpenFlags = OpenFlags::O_RDWR | OpenFlags::O_NOCTTY;
     unsafe {
-        let master = open(PTMX, use_flags)?;
+        // Owned until the end, so that a later failure closes what was opened
+        let master = OwnedFd(open(PTMX, use_flags)?);
         let mut pty_num = 0;
         let pty_num_addr = core::ptr::addr_of_mut!(pty_num);
         // Todo: Maybe check if not zero and bail like musl does
         ioctl(
-            master,
+            master.0,
             TermioFlags::TIOCSPTLCK.bits(),
             pty_num_addr as usize,
         )?;
-        ioctl(master, TermioFlags::TIOCGPTN.bits(), pty_num_addr as usize)?;
-        let slave = if let Some(name) = name {
+        ioctl(
+            master.0,
+            TermioFlags::TIOCGPTN.bits(),
+            pty_num_addr as usize,
+        )?;
+        let slave = OwnedFd(if let Some(name) = name {
             open(name, use_flags)?
         } else {
             let bytename: u8 = pty_num.try_into().map_err(|_| {
@@ -43,18 +50,25 @@ pub fn openpty(
             // on the stack.
             let name = create_pty_name(bytename);
             open_raw(core::ptr::addr_of!(name) as usize, use_flags)?
-        };
+        });
         if let Some(tio) = termios {
-            tcsetattr(slave, SetAction::NOW, tio)?;
+            tcsetattr(slave.0, SetAction::NOW, tio)?;
         }
         if let Some(winsize) = winsize {
             ioctl(
-                slave,
+                slave.0,
                 TermioFlags::TIOCSWINSZ.bits(),
                 core::ptr::addr_of!(winsize) as usize,
             )?;
         }
-        Ok(TerminalHandle { master, slave })
+        let handle = TerminalHandle {
+            master: master.0,
+            slave: slave.0,
+        };
+        // Ownership passes to the caller
+        core::mem::forget(master);
+        core::mem::forget(slave);
+        Ok(handle)
     }
 }
 
